@@ -12,6 +12,9 @@ pub const STREAM_CLASSES: [&str; 13] = ["empty", "single", "constant", "zeros", 
 /// grid scales: magnitudes from 1e-3 to ~1e6 ("moderate")
 const SCALES: [Rat; 4] = [Rat(1, 1000), Rat(1, 8), Rat(1, 1), Rat(30, 1)];
 
+pub fn class_stream_pub(class: usize, n: usize, positive: bool, salt: u64) -> Vec<i64> {
+    class_stream(class, n, positive, salt)
+}
 fn class_stream(class: usize, n: usize, positive: bool, salt: u64) -> Vec<i64> {
     let mut st = salt.wrapping_mul(0x9E37).wrapping_add(class as u64 * 77 + n as u64);
     let mut rnd = |m: i64| -> i64 { (gen::splitmix(&mut st) % (m as u64)) as i64 };
